@@ -31,7 +31,8 @@ impl Input {
 }
 #[derive(Clone, Copy, Debug, Default, PartialEq, Eq)]
 pub struct Payload { pub compressed_size: usize, pub uncompressed_size: usize, pub built_from: Input, pub blobs: usize }
-impl Payload { pub fn new() -> Self { Self::default() } pub fn is_empty(&self) -> bool { self.blobs == 0 } pub fn num_blobs(&self) -> usize { self.blobs } }
+impl Payload { pub fn new() -> Self { Self::default() } pub fn is_empty(&self) -> bool { self.blobs == 0 } pub fn num_blobs(&self) -> usize { self.blobs }
+    pub fn compressed_size(&self) -> usize { self.compressed_size } pub fn uncompressed_size(&self) -> usize { self.uncompressed_size } }
 #[derive(Debug)] pub enum TryIntoPayloadError { PayloadSize }
 pub struct Submission { pub input: Input, pub payload: Payload }
 pub struct TakeSubmission<'a> { pub inner: Option<&'a mut NextSubmission> }
